@@ -201,6 +201,50 @@ def mixed_dtype_jobs(rng, reps):
     return jobs
 
 
+SEQ_FUNCS = FUNCS + ["popularity", "combine"]
+
+
+def seq_jobs(rng, reps):
+    """Call sequences on ONE Dataset object: operator, in-place change of a layer (a cell to another value, a cell
+    to NaN, a whole variable replaced, a variable added / removed), operator again (the same and another one), the
+    same object with other data_vars / ref_var.  Every call is judged on the Dataset's content at that moment."""
+    jobs = []
+    for f in SEQ_FUNCS:
+        for _ in range(reps):
+            H, W = rng.choice([(2, 3), (3, 2), (3, 3)])
+            g = lambda nanp=0.0: [[NAN if rng.random() < nanp else rng.randrange(0, 4) for _ in range(W)] for _ in range(H)]
+            rg = lambda n: [[rng.randrange(1, n + 1) for _ in range(W)] for _ in range(H)]
+            vars_ = {"v0": g(), "v1": g(0.1), "v2": g()}
+            refs = {"ref": rg(2), "ref2": rg(2)}
+            other = rng.choice([x for x in SEQ_FUNCS if x != f])
+            A = ["v0", "v1"]
+            cell = lambda: (rng.randrange(H), rng.randrange(W))
+            steps = [{"op": "call", "func": f, "data_vars": A, "ref": "ref"}]
+            for code in (None, NAN, None):
+                y, x = cell()
+                var = rng.choice(A)
+                new = NAN if code == NAN else (vars_[var][y][x] + rng.choice([1, 2, 3])) % 4 if vars_[var][y][x] != NAN else 2
+                steps.append({"op": "set_cell", "var": var, "y": y, "x": x, "code": new})
+                steps.append({"op": "call", "func": f, "data_vars": A, "ref": "ref"})
+            steps += [{"op": "call", "func": other, "data_vars": A, "ref": "ref"},
+                      {"op": "call", "func": f, "data_vars": A, "ref": "ref"},
+                      {"op": "replace", "var": "v0", "codes": g()},
+                      {"op": "call", "func": f, "data_vars": A, "ref": "ref"},
+                      {"op": "call", "func": f, "data_vars": ["v1", "v0"], "ref": "ref2"},      # same object, other arguments
+                      {"op": "call", "func": f, "data_vars": ["v0", "v2"], "ref": "ref"},
+                      {"op": "replace", "var": "v3", "codes": g()},                             # a variable is added
+                      {"op": "call", "func": f, "data_vars": ["v0", "v1", "v3"], "ref": "ref"},
+                      {"op": "call", "func": f, "data_vars": A, "ref": "ref"},
+                      {"op": "drop", "var": "v2"},                                              # a variable is removed
+                      {"op": "call", "func": f, "data_vars": A, "ref": "ref"}]
+            y, x = cell()
+            steps += [{"op": "set_cell", "var": "v1", "y": y, "x": x, "code": 3 if vars_["v1"][y][x] != 3 else 0},
+                      {"op": "call", "func": f, "data_vars": A, "ref": "ref"},
+                      {"op": "call", "func": other, "data_vars": A, "ref": "ref2"}]
+            jobs.append({"seq": True, "H": H, "W": W, "vars": vars_, "refs": refs, "steps": steps, "tag": "sequence_" + f})
+    return jobs
+
+
 def random_jobs(rng, n):
     jobs = []
     for _ in range(n):
@@ -275,7 +319,10 @@ def observe(ctx, jobs, name, tally, parallel=6):
     for j in jobs:
         j["order"] = CODE_ORDER
     # each worker process pays ~5 CPU-s for importing xrspatial: few processes in the quick tier
-    cases = core.run_jobs("local_worker", jobs, nproc=ctx.pick(4, 12))
+    res = core.run_jobs("local_worker", jobs, nproc=ctx.pick(4, 12))
+    cases = []
+    for r in res:                                      # a call sequence yields one case per call
+        cases.extend(r["cases"] if "cases" in r else [r])
     good = [(i, c) for i, c in enumerate(cases) if "error" not in c]
     v = ctx.judge("Local_Judge", [strip(c) for _, c in good], name=name, parallel=parallel, env=JVM_ENV,
                   constants=dict(CODE_ORDER=CODE_ORDER))
@@ -382,6 +429,13 @@ def run(ctx):
     c = [c for c in cases if c["tag"].startswith("near_tie")][0]
     ctx.sample({"kind": "near_tie", "table": c["job"]["table"], "layers": c["layers"], "ref": c["ref"],
                 "equal_frequency": c["out"].get("equal_frequency")})
+
+    jobs = seq_jobs(rng, ctx.pick(2, 12))
+    cases = observe(ctx, jobs, "call_sequences", tally, parallel=ctx.pick(1, 4))
+    ctx.note("R: %d call sequences on one Dataset object changed in place between calls (%d calls judged)"
+             % (len(jobs), len(cases)))
+    ctx.sample({"kind": "sequence", "tag": cases[3]["tag"], "layers_at_call": cases[3]["layers"],
+                "out": cases[3]["out"].get(cases[3]["funcs"][0]) if cases[3]["funcs"] else None})
 
     # ------------------------------------------------------------------ T
     jobs = random_jobs(rng, ctx.pick(250, 4000))
